@@ -30,6 +30,14 @@ def build_cases(ck: core.Check, rnd: random.Random):
         arg = c["arg"]
         add({"src": "config", "config": c}, pipe_render.render_config_model(c["model"]), target=c["target"], snippets=sn["snippets"], snippets_raw=sn["snippets_raw"], argDefect=("none" if arg == "out_blocked" else arg), outBlock=(arg == "out_blocked"), surrogatepass=True, twice=(c["model"] == "valid" and c["snippets"] == "default" and arg == "none" and c["target"] in ("jsonschema", "xsd")))
         n_cfg += 1
+    # the same through ``python -m aas_core_codegen`` (package __main__): process-level exit status
+    n_mod = 0
+    for model in ("valid", "front_error", "syntax_error", "import_error", "infer_error"):
+        for arg in ("none", "model_not_file"):
+            sn = pipe_render.config_snippets("jsonschema", "default")
+            c = {"target": "jsonschema", "snippets": "default", "model": model, "arg": arg}
+            add({"src": "config", "config": c, "via": "module"}, pipe_render.render_config_model(model), target="jsonschema", snippets=sn["snippets"], argDefect=arg, viaModule=True)
+            n_mod += 1
     # same-rule pairs
     pair_ids = {}
     for p in sorted(cfg["pairs"], key=lambda p: json.dumps(p, sort_keys=True)):
@@ -50,7 +58,7 @@ def build_cases(ck: core.Check, rnd: random.Random):
     corpus = pipe_check.corpus_texts(rnd, n_lines=0 if ck.quick else 600, n_bytes=0, n_big=0 if ck.quick else 2, whole=True)
     for desc, text in corpus:
         add(desc, text)
-    counts = {"configs": n_cfg, "pair_cases": len(pair_ids), "items_dev1": len(g["items1"]), "items_dev2": n2, "corpus": len(corpus)}
+    counts = {"configs": n_cfg, "via_module": n_mod, "pair_cases": len(pair_ids), "items_dev1": len(g["items1"]), "items_dev2": n2, "corpus": len(corpus)}
     return cases, counts, pair_ids
 
 
